@@ -139,6 +139,17 @@ let h_alt (a : byte list) (b : byte list) : byte list =
   incr hash_calls;
   list_of_ocaml_bytes (sha256 (ocaml_bytes_of (byte_of_int 1 :: (a @ b))))
 
+(* mostly-zero pluggable hash: a 4-byte window of sha256(0x02 || a || b), first byte of the
+   window made non-zero — also implemented in the Go harness (zwinPair) *)
+let h_zwin (a : byte list) (b : byte list) : byte list =
+  incr hash_calls;
+  let s = sha256 (ocaml_bytes_of (byte_of_int 2 :: (a @ b))) in
+  let p = (Char.code (Bytes.get s 31) mod 8) * 4 in
+  let o = Bytes.make 32 '\000' in
+  Bytes.blit s p o p 4;
+  Bytes.set o p (Char.chr (Char.code (Bytes.get o p) lor 1));
+  list_of_ocaml_bytes o
+
 let mk_zh (h : byte list -> byte list -> byte list) : nat -> byte list =
   let tab = Array.make 66 zero_chunk in
   for i = 1 to 65 do tab.(i) <- h tab.(i-1) tab.(i-1) done;
